@@ -296,7 +296,7 @@ class FakeRequestSocket(object):
         pass
 
 
-def post_to_handler(dispatcher, body_bytes, sizes, path="/", extra_headers=()):
+def post_to_handler(dispatcher, body_bytes, sizes, path="/", extra_headers=(), content_length="auto"):
     """
     Drives the real SimpleJSONRPCRequestHandler.do_POST for one POST whose
     body is delivered with the generated read sizes.
@@ -304,8 +304,11 @@ def post_to_handler(dispatcher, body_bytes, sizes, path="/", extra_headers=()):
     """
     from jsonrpclib.SimpleJSONRPCServer import SimpleJSONRPCRequestHandler
 
-    head = ["POST %s HTTP/1.0" % path, "Host: verif", "Content-Type: application/json-rpc",
-            "Content-Length: %d" % len(body_bytes)]
+    head = ["POST %s HTTP/1.0" % path, "Host: verif", "Content-Type: application/json-rpc"]
+    if content_length == "auto":
+        head.append("Content-Length: %d" % len(body_bytes))
+    elif content_length is not None:
+        head.append("Content-Length: %s" % content_length)
     head.extend("%s: %s" % kv for kv in extra_headers)
     head_bytes = ("\r\n".join(head) + "\r\n\r\n").encode("latin-1")
     sock = FakeRequestSocket(head_bytes + body_bytes, sizes, len(head_bytes))
